@@ -32,6 +32,9 @@ def std_items(prefix, m, pat='plain'):
 
 
 def mk_story(sid, m=2, pat='between', md=None):
+    if pat == 'first':
+        # the items come first: child index 0 of the story is an item, the storyID follows them
+        return E('story', *(std_items(sid, m, 'plain') + [E('storyID', text=sid), E('storySlug', text=f'slug of {sid}'), B.p(f'{sid} outro')]))
     return B.story(sid, std_items(sid, m, pat), md=md)
 
 
@@ -212,7 +215,7 @@ def new_item(iid):
     return B.item(iid, extra=[E('itemEdDur', text='5')])
 
 
-def item_cases(ms=(0, 1, 2, 3, 4), item_patterns=('plain', 'lead', 'between', 'trail', 'every'),
+def item_cases(ms=(0, 1, 2, 3, 4), item_patterns=('plain', 'lead', 'between', 'trail', 'every', 'first'),
                max_src=2, positions=(0, 1), big_patterns=('every', 'plain')):
     for sids, sid, iids, ipat, ro in item_ros(ms, item_patterns, positions):
         m = len(iids)
@@ -533,21 +536,97 @@ def odd_cases():
                 ('EAItemDelete', 'ea item delete', B.ea('DELETE', {'storyID': sp}, [B.ids('itemID', [other, sp])])),
                 ('EAItemReplace', 'ea item replace', B.ea('REPLACE', {'storyID': sp, 'itemID': sp}, [[new_item('N')]]))][k % 3::3]:
             case(cls, f'special ID {sp!r}: {lbl}', msg, sro)
-    # a big running order: 120 stories of 3 items with metadata between them; operations far from both ends
-    bigids = [f'B{k:03d}' for k in range(120)]
+    # a big running order: 300 stories of 3 items with metadata between them (child indexes up to ~600, beyond
+    # every small-integer cache); operations far from both ends, self-referential ones included
+    bigids = [f'B{k:03d}' for k in range(300)]
     big = B.ro_doc([B.story(i, [B.item(f'{i}-a'), B.p('t'), B.item(f'{i}-b'), B.item(f'{i}-c')]) for i in bigids], pattern='between')
     for cls, lbl, msg in [
-            ('StoryMove', 'far move', B.story_move(['B100', 'B007'])),
-            ('EAStoryMove', 'three far sources', B.ea('MOVE', {'storyID': 'B050'}, [B.ids('storyID', ['B119', 'B000', 'B051'])])),
-            ('EAStorySwap', 'ends', B.ea('SWAP', ABSENT, [B.ids('storyID', ['B000', 'B119'])])),
-            ('StoryDelete', 'scattered', B.story_delete(['B118', 'B001', 'B060', 'B061'])),
-            ('StoryInsert', 'before last', B.story_insert('B119', [X, Y])),
-            ('StoryReplace', 'middle', B.story_replace('B077', [X, Y, new_story('Z')])),
-            ('StorySend', 'late story', B.story_send('B111', [B.p('sent'), B.item('s1')])),
-            ('ItemMoveMultiple', 'in late story', B.item_move_multiple('B110', ['B110-c', 'B110-a'])),
-            ('EAItemSwap', 'in last story', B.ea('SWAP', {'storyID': 'B119'}, [B.ids('itemID', ['B119-a', 'B119-c'])])),
-            ('ItemDelete', 'same item IDs elsewhere', B.item_delete('B099', ['B099-b', 'B098-a']))]:
+            ('StoryMove', 'far move', B.story_move(['B280', 'B007'])),
+            ('StoryMove', 'far story above itself', B.story_move(['B280', 'B280'])),
+            ('StoryMove', 'near story above itself', B.story_move(['B003', 'B003'])),
+            ('EAStoryMove', 'three far sources', B.ea('MOVE', {'storyID': 'B150'}, [B.ids('storyID', ['B299', 'B000', 'B151'])])),
+            ('EAStoryMove', 'far source is the target', B.ea('MOVE', {'storyID': 'B290'}, [B.ids('storyID', ['B291', 'B290'])])),
+            ('EAStoryMove', 'far source twice', B.ea('MOVE', {'storyID': 'B100'}, [B.ids('storyID', ['B291', 'B291'])])),
+            ('EAStorySwap', 'ends', B.ea('SWAP', ABSENT, [B.ids('storyID', ['B000', 'B299'])])),
+            ('EAStorySwap', 'far story with itself', B.ea('SWAP', ABSENT, [B.ids('storyID', ['B270', 'B270'])])),
+            ('StoryDelete', 'scattered', B.story_delete(['B298', 'B001', 'B160', 'B161', 'B298'])),
+            ('StoryInsert', 'before last', B.story_insert('B299', [X, Y])),
+            ('StoryInsert', 'far duplicate', B.story_insert('B299', [new_story('B288'), X])),
+            ('StoryReplace', 'far', B.story_replace('B277', [X, Y, new_story('Z')])),
+            ('StorySend', 'late story', B.story_send('B281', [B.p('sent'), B.item('s1')])),
+            ('ItemMoveMultiple', 'in late story', B.item_move_multiple('B290', ['B290-c', 'B290-a'])),
+            ('ItemMoveMultiple', 'item above itself in late story', B.item_move_multiple('B290', ['B290-c', 'B290-c'])),
+            ('EAItemSwap', 'in last story', B.ea('SWAP', {'storyID': 'B299'}, [B.ids('itemID', ['B299-a', 'B299-c'])])),
+            ('EAItemMove', 'source is target in late story', B.ea('MOVE', {'storyID': 'B285', 'itemID': 'B285-b'}, [B.ids('itemID', ['B285-a', 'B285-b'])])),
+            ('ItemDelete', 'same item IDs elsewhere', B.item_delete('B199', ['B199-b', 'B198-a']))]:
         case(cls, 'big running order: ' + lbl, msg, big)
+    # a story with 300 items: the same for item indexes
+    wide = B.ro_doc([st('A'), B.story('W', [B.item(f'w{k:03d}') for k in range(300)]), st('C')])
+    for cls, lbl, msg in [
+            ('ItemMoveMultiple', 'far item above itself', B.item_move_multiple('W', ['w280', 'w280'])),
+            ('ItemMoveMultiple', 'far sources, one the target', B.item_move_multiple('W', ['w290', 'w270', 'w290'])),
+            ('EAItemMove', 'far', B.ea('MOVE', {'storyID': 'W', 'itemID': 'w010'}, [B.ids('itemID', ['w299', 'w260'])])),
+            ('EAItemSwap', 'far item with itself', B.ea('SWAP', {'storyID': 'W'}, [B.ids('itemID', ['w277', 'w277'])])),
+            ('EAItemDelete', 'far', B.ea('DELETE', {'storyID': 'W'}, [B.ids('itemID', ['w299', 'w000', 'w258', 'w299'])])),
+            ('ItemReplace', 'far', B.item_replace('W', 'w288', [new_item('N1'), new_item('w288')])),
+            ('ItemInsert', 'far', B.item_insert('W', 'w299', [new_item('N1')]))]:
+        case(cls, 'wide story: ' + lbl, msg, wide)
+    # elements NESTED in payloads carry IDs too: a <story>/<item> below an item's mosPayload is not a story/item of the
+    # running order - whatever a message names, only direct children count
+    nest = B.ro_doc([B.story('A', [B.item('I1', extra=[E('mosExternalMetadata', E('mosSchema', text='v'), E('mosPayload',
+                        E('item', E('itemID', text='N1'), E('itemSlug', text='nested item')),
+                        E('story', E('storyID', text='NS'), E('item', E('itemID', text='N2')))))]), B.item('I2'), B.item('I3')]),
+                     st('B')], pattern='lead')
+    for cls, lbl, msg in [
+            ('StoryInsert', 'carried ID equals a nested story ID', B.story_insert('B', [new_story('NS'), X])),
+            ('EAStoryInsert', 'carried ID equals a nested story ID', B.ea('INSERT', {'storyID': 'B'}, [[new_story('NS')]])),
+            ('StoryDelete', 'nested story ID', B.story_delete(['NS', 'B'])),
+            ('StoryMove', 'nested story ID', B.story_move(['NS', 'A'])),
+            ('StoryReplace', 'nested story ID', B.story_replace('NS', [X])),
+            ('StorySend', 'nested story ID', B.story_send('NS', [B.p('x')])),
+            ('EAStorySwap', 'nested story ID', B.ea('SWAP', ABSENT, [B.ids('storyID', ['A', 'NS'])])),
+            ('ItemMoveMultiple', 'second source is a nested item', B.item_move_multiple('A', ['I3', 'N1', 'I1'])),
+            ('ItemMoveMultiple', 'third source is a nested item', B.item_move_multiple('A', ['I3', 'I2', 'N1', 'I1'])),
+            ('ItemMoveMultiple', 'target is a nested item', B.item_move_multiple('A', ['I3', 'N1'])),
+            ('EAItemMove', 'second source is a nested item', B.ea('MOVE', {'storyID': 'A', 'itemID': 'I1'}, [B.ids('itemID', ['I3', 'N1'])])),
+            ('ItemDelete', 'nested item', B.item_delete('A', ['I2', 'N1', 'N2'])),
+            ('EAItemDelete', 'nested item', B.ea('DELETE', {'storyID': 'A'}, [B.ids('itemID', ['N1', 'I2'])])),
+            ('ItemReplace', 'nested item', B.item_replace('A', 'N1', [new_item('R')])),
+            ('ItemInsert', 'before a nested item', B.item_insert('A', 'N2', [new_item('R')])),
+            ('ItemInsert', 'carried ID equals a nested item ID', B.item_insert('A', 'I2', [new_item('N1')])),
+            ('EAItemSwap', 'nested item', B.ea('SWAP', {'storyID': 'A'}, [B.ids('itemID', ['I2', 'N1'])])),
+            ('ItemDelete', 'addressed story is a nested story', B.item_delete('NS', ['N2']))]:
+        case(cls, 'nested look-alikes with IDs: ' + lbl, msg, nest)
+    # blank references against elements that have NO ID tag at all (a blank reference names nothing, them included)
+    for cls, lbl, msg in [
+            ('ItemDelete', 'blank ref', B.item_delete('B', [BLANK])), ('ItemDelete', 'blank and known', B.item_delete('B', [BLANK, 'I1', BLANK])),
+            ('EAItemDelete', 'blank ref', B.ea('DELETE', {'storyID': 'B'}, [B.ids('itemID', [BLANK, 'I1'])])),
+            ('ItemReplace', 'blank ref', B.item_replace('B', BLANK, [new_item('N')])),
+            ('ItemMoveMultiple', 'blank source', B.item_move_multiple('B', [BLANK, 'I1'])),
+            ('EAItemSwap', 'blank', B.ea('SWAP', {'storyID': 'B'}, [B.ids('itemID', [BLANK, 'I1'])])),
+            ('EAItemMove', 'blank source', B.ea('MOVE', {'storyID': 'B', 'itemID': 'I1'}, [B.ids('itemID', [BLANK])])),
+            ('EAItemReplace', 'blank', B.ea('REPLACE', {'storyID': 'B', 'itemID': BLANK}, [[new_item('N')]]))]:
+        case(cls, 'ID-less item in the story: ' + lbl, msg, noid)
+    noid_story = B.ro_doc([st('A'), E('story', E('storySlug', text='no id'), B.item('I1')), st('C')])
+    for cls, lbl, msg in [
+            ('StoryDelete', 'blank ref', B.story_delete([BLANK, 'C'])), ('StoryReplace', 'blank ref', B.story_replace(BLANK, [X])),
+            ('StoryMove', 'blank source', B.story_move([BLANK, 'A'])), ('StorySend', 'blank', B.story_send(BLANK, [B.p('x')])),
+            ('EAStoryDelete', 'blank', B.ea('DELETE', ABSENT, [B.ids('storyID', [BLANK, 'A'])])),
+            ('EAStorySwap', 'blank', B.ea('SWAP', ABSENT, [B.ids('storyID', [BLANK, 'A'])])),
+            ('ItemDelete', 'blank story ref', B.item_delete(BLANK, ['I1'])),
+            ('StoryInsert', 'carried story without ID', B.story_insert('C', [E('story', E('storySlug', text='also no id'))]))]:
+        case(cls, 'ID-less story in the running order: ' + lbl, msg, noid_story)
+    # roMetadataReplace against running-order metadata blocks without a mosSchema (before / after / instead of a matching one)
+    for k, blocks in enumerate([[E('mosExternalMetadata', E('mosPayload', E('x', text='no schema'))), B.timing_md(duration='1', schema='s1')],
+                                [B.timing_md(duration='1', schema='s1'), E('mosExternalMetadata', E('mosPayload'))],
+                                [E('mosExternalMetadata', E('mosPayload')), E('mosExternalMetadata')],
+                                [E('mosExternalMetadata', E('mosSchema'), E('mosPayload'))]]):
+        mro = B.ro_doc(stories, pattern='lead', extra=blocks)
+        for lbl, msg in [('known schema', B.metadata_replace([B.timing_md(duration='9', schema='s1')])),
+                         ('unknown schema', B.metadata_replace([B.timing_md(duration='9', schema='s9')])),
+                         ('block without schema', B.metadata_replace([E('mosExternalMetadata', E('mosPayload', E('y')))])),
+                         ('blank schema', B.metadata_replace([E('mosExternalMetadata', E('mosSchema'), E('mosPayload', E('z')))]))]:
+            case('MetaDataReplace', f'running-order blocks #{k}: {lbl}', msg, mro)
     # a blank-ID story carried into a running order that already holds a blank-ID story
     for cls, lbl, msg in [
             ('StoryInsert', 'blank carried, blank present', B.story_insert('C', [B.story(BLANK, [B.item('Q')]), X])),
